@@ -89,6 +89,9 @@ pub open spec fn entry_identity_kept(a: ZipFileData, b: ZipFileData) -> bool {
 // hands start_entry the String it built)
 pub axiom fn axiom_string_into_string(s: String)
     ensures <String as IntoSpec<String>>::obeys_into_spec(), IntoSpec::<String>::into_spec(s) == s;
+// TRUSTED (std): `impl From<String> for Vec<u8>` is `String::into_bytes` - the string's UTF-8 encoding (used by set_comment)
+pub axiom fn axiom_string_into_bytes(s: String)
+    ensures <String as IntoSpec<Vec<u8>>>::obeys_into_spec(), IntoSpec::<Vec<u8>>::into_spec(s)@ == utf8(s@);
 // ---- C11: an operation that reports success has not seen the sink fail (for a sink that had not failed before)
 pub open spec fn zw_sink_dev<W: Write + io::Seek>(w: &ZipWriter<W>) -> bool { !(w.inner is Closed) && gzw_sink(w.inner).g_dev() }
 pub open spec fn zw_sink_fault<W: Write + io::Seek>(w: &ZipWriter<W>) -> bool { !(w.inner is Closed) && gzw_sink(w.inner).g_fault() }
